@@ -66,3 +66,72 @@ package harfbuzz
 //@   modifies unspecified
 //@ trusted Font.ExtentsForDirection
 //@   modifies nothing
+//
+// ---------------------------------------------------------------------------------------------
+// Property C18, mechanism "unsafeToBreak ... setGlyphFlags": flagging a range [start, end) marks every glyph of the
+// range that does not belong to the range's minimal cluster (the first cluster in logical order keeps a safe
+// boundary in front of it). Stated for buffers whose clusters are monotone over the range, or at cluster level
+// Characters where the minimum is searched exhaustively.
+//@ spec monotoneRange(infos []GlyphInfo, start int, end int) bool = forall(k, start, end, forall(l, k, end, infos[k].Cluster <= infos[l].Cluster)) || forall(k, start, end, forall(l, k, end, infos[k].Cluster >= infos[l].Cluster))
+//@ func Buffer.findMinCluster C18
+//@   mode bv
+//@   requires [range] 0 <= start && start <= end && end <= len(infos)
+//@   ensures [not-above-seed] result <= cluster0
+//@   ensures [empty] implies(start == end, result == cluster0)
+//@   ensures [minimum] implies(b.ClusterLevel == Characters || monotoneRange(infos, start, end), forall(k, start, end, result <= infos[k].Cluster))
+//@   ensures [attained] implies(start < end && forall(k, start, end, infos[k].Cluster < cluster0), exists(k, start, end, mark(k) && result == infos[k].Cluster))
+//@   modifies nothing
+//@   loop 1 invariant [i-range] start <= i && i <= end
+//@   loop 1 invariant [min-so-far] cluster <= cluster0 && forall(k, start, i, cluster <= infos[k].Cluster)
+//@   loop 1 invariant [attained-so-far] cluster == cluster0 || exists(k, start, i, mark(k) && cluster == infos[k].Cluster)
+//
+//@ func Buffer.infosSetGlyphFlags C18
+//@   mode bv
+//@   requires [range] 0 <= start && start <= end && end <= len(infos)
+//@   ensures [other-clusters-flagged] implies(b.ClusterLevel == Characters || monotoneRange(infos, start, end), forall(k, start, end, implies(infos[k].Cluster != cluster, infos[k].Mask == old(infos[k].Mask)|mask)))
+//@   ensures [only-these-bits] forall(k, start, end, infos[k].Mask == old(infos[k].Mask) || infos[k].Mask == old(infos[k].Mask)|mask)
+//@   ensures [cluster-of-reference-untouched] forall(k, start, end, implies(infos[k].Cluster == cluster, infos[k].Mask == old(infos[k].Mask)))
+//@   ensures [clusters-kept] forall(k, 0, len(infos), infos[k].Cluster == old(infos[k].Cluster))
+//@   modifies infos[start:end].Mask; b.scratchFlags
+//@   loop 1 invariant [i-range] start <= i && i <= end
+//@   loop 1 invariant [done] forall(k, start, i, infos[k].Mask == ite(infos[k].Cluster != cluster, old(infos[k].Mask)|mask, old(infos[k].Mask)))
+//@   loop 1 invariant [todo] forall(k, i, end, infos[k].Mask == old(infos[k].Mask))
+//@   loop 2 invariant [i-range] start <= i && i <= end && clusterFirst == infos[start].Cluster && cluster == clusterFirst
+//@   loop 2 invariant [done] forall(k, i, end, infos[k].Cluster != clusterFirst && infos[k].Mask == old(infos[k].Mask)|mask)
+//@   loop 2 invariant [todo] forall(k, start, i, infos[k].Mask == old(infos[k].Mask))
+//@   loop 3 invariant [i-range] start <= i && i <= end && clusterLast == infos[end-1].Cluster && cluster == clusterLast
+//@   loop 3 invariant [done] forall(k, start, i, infos[k].Cluster != clusterLast && infos[k].Mask == old(infos[k].Mask)|mask)
+//@   loop 3 invariant [todo] forall(k, i, end, infos[k].Mask == old(infos[k].Mask))
+//
+// setGlyphFlags, case used by unsafeToBreak (interior, not from the out-buffer): nothing happens for ranges of fewer
+// than two glyphs; otherwise every glyph of [start, min(end, len)) outside the minimal cluster of the range gets the
+// mask and no glyph of the minimal cluster does.
+//@ func Buffer.setGlyphFlags C18
+//@   mode bv
+//@   requires [range] 0 <= start && start <= end && start <= len(b.Info)
+//@   ensures [short-range-untouched] implies(interior && !fromOutBuffer && min(end0, len(b.Info))-start < 2, forall(k, 0, len(b.Info), b.Info[k].Mask == old(b.Info[k].Mask)))
+//@   ensures [interior-flags-non-minimal] implies(interior && !fromOutBuffer && old(b.ClusterLevel == Characters || monotoneRange(b.Info, start, min(end0, len(b.Info)))),
+//@     | forall(k, start, old(min(end0, len(b.Info))), implies(exists(l, start, old(min(end0, len(b.Info))), mark(l) && old(b.Info[l].Cluster < b.Info[k].Cluster)), b.Info[k].Mask == old(b.Info[k].Mask)|mask)))
+//@   ensures [outside-untouched] implies(!fromOutBuffer, forall(k, 0, len(b.Info), implies(k < start || k >= min(end0, len(b.Info)), b.Info[k].Mask == old(b.Info[k].Mask))))
+//@   ensures [clusters-kept] implies(!fromOutBuffer, sameslice(b.Info, old(b.Info)) && forall(k, 0, len(b.Info), b.Info[k].Cluster == old(b.Info[k].Cluster)))
+//@   modifies unspecified
+//@   loop 1 invariant [i-range] start <= i && i <= end && end <= len(info) && sameslice(info, b.Info) && sameslice(b.Info, old(b.Info))
+//@   loop 1 invariant [done] forall(k, 0, len(info), info[k].Mask == ite(start <= k && k < i, old(b.Info[k].Mask)|mask, old(b.Info[k].Mask)) && info[k].Cluster == old(b.Info[k].Cluster))
+//@   assert_at call findMinCluster#1 : [same-range] end == min(end0, len(b.Info)) && sameslice(info, b.Info)
+//@   assert_at call findMinCluster#1 : [monotone-transfer] implies(monotoneRange(b.Info, start, min(end0, len(b.Info))), monotoneRange(info, start, end))
+//
+// unsafeToBreak = setGlyphFlags(UnsafeToBreak|UnsafeToConcat, start, end, interior, in place).
+//@ func Buffer.unsafeToBreak C18
+//@   mode bv
+//@   requires [range] 0 <= start && start <= end && start <= len(b.Info)
+//@   ensures [flags-non-minimal-clusters] implies(old(b.ClusterLevel == Characters || monotoneRange(b.Info, start, min(end, len(b.Info)))),
+//@     | forall(k, start, old(min(end, len(b.Info))), implies(exists(l, start, old(min(end, len(b.Info))), mark(l) && old(b.Info[l].Cluster < b.Info[k].Cluster)), b.Info[k].Mask&(GlyphUnsafeToBreak|GlyphUnsafeToConcat) == GlyphUnsafeToBreak|GlyphUnsafeToConcat)))
+//@   ensures [outside-untouched] forall(k, 0, len(b.Info), implies(k < start || k >= min(end, len(b.Info)), b.Info[k].Mask == old(b.Info[k].Mask)))
+//@   modifies unspecified
+//
+// clearPositions (C01, "clearPositions re-synchronises Pos with Info before positioning").
+//@ func Buffer.clearPositions C01
+//@   mode bv
+//@   ensures [parallel-arrays] len(b.Pos) == len(b.Info) && len(b.outInfo) == 0 && !b.haveOutput
+//@   ensures [info-kept] sameslice(b.Info, old(b.Info))
+//@   modifies b.haveOutput; b.outInfo; b.Pos
